@@ -130,6 +130,10 @@ let run (name : string) (args : arg list) : string =
   | "Finde_Subtext", [L t; L s] -> out [pl (get (finde_Subtext t s)); pl t; pl s]
   | "Verbinden_Text", [LL l; L [z]] -> out [pl (get (verbinden_Text l z)); pll l; pl [z]]
   | "Verbinden_Buchstabe", [L l; L [z]] -> out [pl (get (verbinden_Buchstabe l z)); pl l; pl [z]]
+  | "Verbinden_Zahl", [L l; L [z]] -> out [pl (get (verbinden_Zahl l z)); pl l; pl [z]]
+  | "Levenshtein_Distanz", [L a; L b] -> out [pz (get (levenshtein_Distanz a b)); pl a; pl b]
+  | "Text_Zu_ByteListe", [L t] -> out [pl (text_Zu_ByteListe t); pl t]
+  | "ByteListe_Zu_Text", [L b] -> out [pl (byteListe_Zu_Text b); pl b]
   | "Hamming_Distanz", [L a; L b] -> out [pz (get (hamming_Distanz a b)); pl a; pl b]
   | "Vergleiche_Text", [L a; L b] -> out [pz (get (vergleiche_Text a b)); pl a; pl b]
   | "Spalten_Spaltmenge_Text", [L t; L m] -> out [pll (get (spalten_Spaltmenge_Text_Ref t m)); pl t; pl m]
@@ -151,6 +155,7 @@ let run (name : string) (args : arg list) : string =
   | "Ist_Teilbar", [Z a; Z b] -> out [pb (get (ist_Teilbar a b)); pz a; pz b]
   | "Gerade_Zahl", [Z x] -> out [pb (gerade_Zahl x); pz x]
   | "Fakultät", [Z x] -> out [pz (get (fakultaet x)); pz x]
+  | "Primfaktorzerlegung", [Z x] -> out [pl (get (primfaktorzerlegung x)); pz x]
   | "Teilerzerlegung", [Z x] -> out [pl (teilerzerlegung x); pz x]
   | "Floor", [Z q] -> out [pz (floor q four); pz q]
   | "Ceil", [Z q] -> out [pz (ceil q four); pz q]
